@@ -54,6 +54,9 @@ var nowNano = time.Now().UnixNano()
 const modeTransport = "transport"
 
 func genCase(seed int64, plugin string, caseNo int, mode string) *caseSpec {
+	if mode == modeBigFile {
+		return genBigFileCase(seed, caseNo) // bigfile.go: own generator, own seed stream
+	}
 	g := &gen{r: rand.New(rand.NewSource(seed))}
 	cs := &caseSpec{}
 	c := &cs.Cfg
@@ -816,6 +819,10 @@ func runCase(cs *caseSpec, scratch string, res *caseResult) {
 		}
 	}
 
+	if c.BigFile {
+		runBigFile(cs, s, res)
+		return
+	}
 	if cs.Concurrent {
 		runConcurrent(cs, s, res, report)
 		return
